@@ -314,6 +314,40 @@ Definition authenticate_impersonation (na : node_auth) (cluster_id : string) (k 
   | Some ps => cluster_authenticate_impersonation (na_trusted na) ps k requested
   end.
 
+(* ------------------------------------------------------------------ histories of one cluster's authorizer *)
+
+(* what happens to one long-lived ClusterNodeAuthorizer: pod events seen by its informer (an add of an
+   existing namespace/name is an update, e.g. a move to another node) and impersonation requests *)
+Inductive hop :=
+| HAdd (p : pod)
+| HDel (name ns : string)
+| HReq (k : kube_info) (imp : string).
+
+Definition same_key (name ns : string) (p : pod) : bool :=
+  String.eqb (p_name p) name && String.eqb (p_ns p) ns.
+
+Definition world_step (ps : list pod) (op : hop) : list pod :=
+  match op with
+  | HAdd p => p :: filter (fun q => negb (same_key (p_name p) (p_ns p) q)) ps
+  | HDel n ns => filter (fun q => negb (same_key n ns q)) ps
+  | HReq _ _ => ps
+  end.
+
+(* the authorizer keeps no state of its own: every request is answered from the informer's current pods *)
+Fixpoint run_history (trusted : list (string * string)) (ps : list pod) (ops : list hop) : list bool :=
+  match ops with
+  | [] => []
+  | HReq k imp :: r => cluster_authenticate_impersonation trusted ps k imp :: run_history trusted ps r
+  | op :: r => run_history trusted (world_step ps op) r
+  end.
+
+Fixpoint count_reqs (ops : list hop) : nat :=
+  match ops with
+  | [] => 0
+  | HReq _ _ :: r => S (count_reqs r)
+  | _ :: r => count_reqs r
+  end.
+
 (* ------------------------------------------------------------------ the request *)
 
 (* structpb.Value kinds; GetStringValue is "" for every kind but string *)
